@@ -98,10 +98,20 @@ def build_frame(rnd, shape=None):
 
 
 def truncations(frame, layers):
-    """offsets at which to cut: every layer boundary +-1 and inside every header"""
+    """offsets at which to cut: every layer boundary +-1, inside every header, and right at / around the end of every
+    header as the header itself announces it (IHL, data offset) and of its fixed part"""
     cuts = {0, 1, len(frame)}
     for kind, off in layers:
-        for d in (-1, 0, 1, 2, 7, 13, 19, 20, 21, 39, 40):
+        ds = [-1, 0, 1, 2, 7, 13, 19, 20, 21, 39, 40]
+        if off < len(frame):
+            hlen = {"eth": 14, "vlan": 4, "ipv6": 40, "udp": 8}.get(kind)
+            if kind == "ipv4":
+                hlen = (frame[off] & 15) * 4
+            elif kind == "tcp" and off + 12 < len(frame):
+                hlen = (frame[off + 12] >> 4) * 4
+            if hlen:
+                ds += [hlen - 1, hlen, hlen + 1]
+        for d in ds:
             if 0 <= off + d <= len(frame):
                 cuts.add(off + d)
     return sorted(cuts)
